@@ -241,3 +241,82 @@ Definition step (s : state) (o : op) : state * res :=
 
 Fixpoint run (s : state) (ops : list op) : list res :=
   match ops with [] => [] | o :: t => let '(s', r) := step s o in r :: run s' t end.
+
+(* ---- operations added later: ANget_tagref, and the file-annotation enumeration call by call -------------------- *)
+(** [x_enum kind] is the enumeration of file labels (kind 0) / file descriptions (kind 1) in progress on this file:
+    the refs delivered since it was started with isfirst = 1, and the ref the last length call announced (the next
+    read delivers that one).  [None]: no enumeration in progress (another file was used, the file changed, a whole
+    enumeration ran) -- continuing with isfirst = 0 is then outside the domain.  Which annotation comes first or next
+    is the library's choice ([rref]); the specification demands that it is one NOT delivered yet, that a read delivers
+    the announced one, and that the calls fail exactly when all have been delivered. *)
+Inductive xop :=
+| XOp (o : op)
+| XGetTagref (type idx rref : Z)                  (* ANget_tagref, compared with ANid2tagref(ANselect(idx)) *)
+| XFLen (kind : Z) (first : bool) (rref : Z)      (* DFANgetfidlen / DFANgetfdslen *)
+| XFGet (kind : Z) (first : bool) (maxlen rref : Z)   (* DFANgetfid / DFANgetfds into a 0xEE-filled buffer *)
+| XSwitch.                                        (* another file is used from now on *)
+
+Record xstate := mkx { x_st : state; x_enum : Z -> option (list Z * option Z) }.
+Definition xinit : xstate := mkx init (fun _ => None).
+
+Definition zmem (r : Z) (l : list Z) : bool := existsb (fun x => x =? r) l.
+Definition set_enum_x (e : Z -> option (list Z * option Z)) (k : Z) (v : option (list Z * option Z)) :=
+  fun k' => if k' =? k then v else e k'.
+
+Definition xstep (x : xstate) (o : xop) : xstate * res :=
+  let s := x_st x in
+  match o with
+  | XOp o' =>
+      let '(s', r) := step s o' in
+      let e' := match o' with OStart | ODfAddF _ _ _ | ODfGetFs _ => (fun _ => None) | _ => x_enum x end in
+      (mkx s' e', r)
+  | XSwitch => (mkx s (fun _ => None), ROk [] [])
+  | XGetTagref type idx rref =>
+      if negb (sess s) then (x, RFail) else
+      if negb (valid_type type) then (x, RUnspec) else
+      if (idx <? 0) || (zlen (of_type type (anns s)) <=? idx) then (x, RFail) else
+      match lookup (type, rref) (anns s) with
+      | None => (x, RBad)
+      | Some _ => (x, ROk [tag_of_type type; rref; tag_of_type type; rref] [])
+      end
+  | XFLen kind first rref =>
+      if sess s then (x, RUnspec) else
+      if negb ((kind =? 0) || (kind =? 1)) then (x, RUnspec) else
+      let t := dfan_kind_ftype kind in
+      match (if first then Some ([], None) else x_enum x kind) with
+      | None => (x, RUnspec)
+      | Some (seen, peek) =>
+          let cands := filter (fun r => negb (zmem r seen)) (refs (of_type t (anns s))) in
+          match cands with
+          | [] => (mkx s (set_enum_x (x_enum x) kind (Some (seen, None))), RFail)
+          | _ =>
+              if match peek with Some p => rref =? p | None => zmem rref cands end
+              then match lookup (t, rref) (anns s) with
+                   | Some a => (mkx s (set_enum_x (x_enum x) kind (Some (seen, Some rref))), ROk [zlen (text_of a); rref] [])
+                   | None => (x, RBad)
+                   end
+              else (x, RBad)
+          end
+      end
+  | XFGet kind first maxlen rref =>
+      if sess s then (x, RUnspec) else
+      if negb ((kind =? 0) || (kind =? 1)) || (maxlen <? 1) then (x, RUnspec) else
+      let t := dfan_kind_ftype kind in
+      match (if first then (match x_enum x kind with Some ([], Some p) => Some ([], Some p) | _ => Some ([], None) end)
+             else x_enum x kind) with
+      | None => (x, RUnspec)
+      | Some (seen, peek) =>
+          let cands := filter (fun r => negb (zmem r seen)) (refs (of_type t (anns s))) in
+          match cands with
+          | [] => (mkx s (set_enum_x (x_enum x) kind (Some (seen, None))), RFail)
+          | _ =>
+              if match peek with Some p => rref =? p | None => zmem rref cands end
+              then match lookup (t, rref) (anns s) with
+                   | Some a => (mkx s (set_enum_x (x_enum x) kind (Some (rref :: seen, None))),
+                                ROk [Z.min (zlen (text_of a)) (maxlen - 1); rref] [[buffer_image true (text_of a) maxlen]])
+                   | None => (x, RBad)
+                   end
+              else (x, RBad)
+          end
+      end
+  end.
